@@ -203,6 +203,31 @@ Section NodeCC.
       let fuel := 2 * length (n_log n1) + 8 in
       let '(n2, _, pend2, _) := iter fuel ready_iter (n1, c, pend1, n_commit n) in
       ((n2, pend2), out).
+
+  (* one MsgProp carrying several entries (stepLeader's loop over m.Entries, then ONE appendEntry):
+     every entry is examined in order against the pendingConfIndex as updated by the entries before
+     it — an admitted configuration change at position i sets it to lastIndex + i + 1, so a second
+     change in the same proposal is replaced by an empty entry — and only then does the Ready loop
+     run.  [handle_cc (EvPropose p)] is that examination for one entry. *)
+  Fixpoint batch_cc (c : conf) (ps : list nat) (n : nstate) (pend : nat) : nstate * nat :=
+    match ps with
+    | [] => (n, pend)
+    | p :: t => let '(n1, _, pend1) := handle_cc c (EvPropose p) n pend in batch_cc c t n1 pend1
+    end.
+
+  Definition exec_batch (ps : list nat) (st : nstate * nat) : (nstate * nat) * list msg :=
+    let (n, pend) := st in
+    let c := node_cfg boot n in
+    let (n1, pend1) := batch_cc c ps n pend in
+    let fuel := 2 * length (n_log n1) + 8 in
+    let '(n2, _, pend2, _) := iter fuel ready_iter (n1, c, pend1, n_commit n) in
+    ((n2, pend2), []).
+
+  (* an event of the membership-change system: one of RaftModel.event, or a batched proposal *)
+  Inductive cevent : Type := CEv (ev : event) | CBatch (ps : list nat).
+
+  Definition exec_cce (cev : cevent) (st : nstate * nat) : (nstate * nat) * list msg :=
+    match cev with CEv ev => exec_cc ev st | CBatch ps => exec_batch ps st end.
 End NodeCC.
 
 (* ------------------------------------------------------------------ the system and its checker *)
@@ -243,11 +268,11 @@ Section SystemCC.
   Variable page1 : bool.
 
   Inductive cxstep (x : cxstate) : cxstate -> Prop :=
-  | CXStep : forall id ev extra,
-      (forall m, ev = EvRecv m -> In m (cx_msgs x) /\ m_to m = id) ->
-      forallb (emit_cc_okb id (fst (fst (exec_cc boot page1 id ev (cx_nodes x id))))) extra = true ->
-      cxstep x (mkCX (upd (cx_nodes x) id (fst (exec_cc boot page1 id ev (cx_nodes x id))))
-                     (cx_msgs x ++ snd (exec_cc boot page1 id ev (cx_nodes x id)) ++ extra)).
+  | CXStep : forall id cev extra,
+      (forall m, cev = CEv (EvRecv m) -> In m (cx_msgs x) /\ m_to m = id) ->
+      forallb (emit_cc_okb id (fst (fst (exec_cce boot page1 id cev (cx_nodes x id))))) extra = true ->
+      cxstep x (mkCX (upd (cx_nodes x) id (fst (exec_cce boot page1 id cev (cx_nodes x id))))
+                     (cx_msgs x ++ snd (exec_cce boot page1 id cev (cx_nodes x id)) ++ extra)).
 
   Inductive cxreachable : cxstate -> Prop :=
   | CXR_init : cxreachable cx_init
